@@ -1,5 +1,6 @@
 import StepModel.Session
 import StepModel.AttrNull
+import StepModel.HeaderIds
 /-! Line protocol shared by the C14 and C16 drivers (same commands as harness/h_p21.cc where they overlap).
 
     attrs <full|own> <ENTITY> (<KIND>:<optional 0|1>[:<typeRef 0|1>])*      attribute table of an entity (full = inherited + own, Part 21
@@ -13,6 +14,8 @@ import StepModel.AttrNull
     writework [<writeComments 0|1>]                         -> W <L> <inst> | …          (what WriteWorkingData emits; default 1)
     fileheader <hex>*                                       header entities of the file the next read / readwork stands for -> R ok
     header                                                  -> H <hex>*                  (header instances the STEPfile holds = what a save writes)
+    hids                                                    -> H <id>/<NAME> …           (file ids of the header instances held, list order; as `hdr` of the harness)
+    hwrite                                                  -> H <hex>*                  (the header instances `WriteHeader` writes, by the id model)
     anything else -> R bad-op -/
 namespace StepModel.SessionProto
 open StepModel StepModel.P21 StepModel.Generated StepModel.Session StepModel.AttrNull
@@ -21,6 +24,7 @@ structure St where
   sess : Sess := cleared
   header : List String := []          -- header instances the STEPfile holds
   nextHeader : List String := []      -- header of the file the next read/readwork command stands for
+  hst : HeaderIds.HState := {}        -- `_headerId` and the header instances with their file ids
   strict : Bool := false
   full : List (String × List AttrD) := []
   own : List (String × List AttrD) := []
@@ -93,9 +97,11 @@ def asevFn (st : St) (i : Inst) : Sev :=
       (ps.map (fun p => (((st.own.find? (·.1 == p.name)).map (·.2)).getD [], toksOf p.vals)))).1
 
 def parseInsts (ws : List String) : Option (List Inst) :=
+  if ws.isEmpty then some [] else
   (splitOnWord "|" ws).mapM (fun g => match decodeInst g with | some (i, []) => some i | _ => none)
 
 def parseEntries (ws : List String) : Option (List Entry) :=
+  if ws.isEmpty then some [] else
   (splitOnWord "|" ws).mapM (fun g =>
     match g with
     | l :: rest =>
@@ -104,6 +110,9 @@ def parseEntries (ws : List String) : Option (List Entry) :=
         if l = "-" then some ⟨none, i⟩ else match l.toList with | [c] => some ⟨some c, i⟩ | _ => none
       | _ => none
     | [] => none)
+
+/-- header entity text `KEYWORD(…);` -> keyword (upper case) and text -/
+def hentOf (t : String) : HeaderIds.HEnt := ⟨((t.splitOn "(").headD "").trimAscii.toString.toUpper, t⟩
 
 def readReply (k : Int) (s : Sess) : String := s!"R incr={k} n={s.nodes.length} max={s.maxId}"
 
@@ -119,14 +128,15 @@ def handle (st : St) (line : String) : St × String :=
       else (st, "R bad-op")
     | none => (st, "R bad-op")
   | ["reset", s] =>
-    if s = "0" ∨ s = "1" then ({ st with sess := cleared, strict := s = "1", header := [], nextHeader := [] }, "R reset")
+    if s = "0" ∨ s = "1" then ({ st with sess := cleared, strict := s = "1", header := [], nextHeader := [], hst := {} }, "R reset")
     else (st, "R bad-op")
   | "read" :: rest =>
     match parseInsts rest with
     | some f =>
       if f.all (knows st) then
         let s' := readExchange (fillFn st) (asevFn st) f
-        ({ st with sess := s', header := st.nextHeader }, readReply (fileIdIncrOf cleared.maxId) s')
+        ({ st with sess := s', header := st.nextHeader,
+                   hst := HeaderIds.readFileH .readExchange st.hst (st.nextHeader.map hentOf) }, readReply (fileIdIncrOf cleared.maxId) s')
       else (st, "R bad-schema")
     | none => (st, "R bad-op")
   | "append" :: rest =>
@@ -134,7 +144,8 @@ def handle (st : St) (line : String) : St × String :=
     | some f =>
       if f.all (knows st) then
         let s' := appendExchange (fillFn st) (asevFn st) st.sess f
-        ({ st with sess := s' }, readReply (fileIdIncrOf st.sess.maxId) s')
+        ({ st with sess := s', hst := HeaderIds.readFileH .appendExchange st.hst (st.nextHeader.map hentOf) },
+          readReply (fileIdIncrOf st.sess.maxId) s')
       else (st, "R bad-schema")
     | none => (st, "R bad-op")
   | "readwork" :: rest =>
@@ -142,7 +153,8 @@ def handle (st : St) (line : String) : St × String :=
     | some es =>
       if es.all (fun e => knows st e.inst) then
         let fs := readWorkingFile (fillFn st) (asevFn st) ⟨st.sess, st.header⟩ ⟨st.nextHeader, es⟩
-        ({ st with sess := fs.sess, header := fs.header }, readReply (fileIdIncrOf cleared.maxId) fs.sess)
+        ({ st with sess := fs.sess, header := fs.header,
+                   hst := HeaderIds.readFileH .readWorking st.hst (st.nextHeader.map hentOf) }, readReply (fileIdIncrOf cleared.maxId) fs.sess)
       else (st, "R bad-schema")
     | none => (st, "R bad-op")
   | ["setstate", i, s] =>
@@ -167,6 +179,8 @@ def handle (st : St) (line : String) : St × String :=
     | some hs => ({ st with nextHeader := hs }, "R ok")
     | none => (st, "R bad-op")
   | ["header"] => (st, "H " ++ " ".intercalate (st.header.map hexOf))
+  | ["hids"] => (st, "H" ++ String.join (st.hst.mgr.nodes.map (fun x => s!" {x.1}/{x.2.name}")))
+  | ["hwrite"] => (st, "H " ++ " ".intercalate ((HeaderIds.writeHeader st.hst.mgr).map (fun e => hexOf e.text)))
   | _ => (st, "R bad-op")
 
 partial def loop (h : IO.FS.Stream) (out : IO.FS.Stream) (st : St) : IO Unit := do
